@@ -3,7 +3,7 @@ use super::Tier;
 use crate::gens::*;
 use crate::model::big::U256;
 use crate::model::ed::Aff;
-use crate::model::sc;
+use crate::model::sc::{self, Sc};
 use crate::req::{Req, Resp};
 use crate::runner::{Check, Exec};
 use proptest::collection::vec;
@@ -12,6 +12,46 @@ use proptest::prelude::*;
 /// scalars for the entry points documented to accept unreduced integers below 2^255
 fn scalar_wide() -> BoxedStrategy<B32> {
     prop_oneof![2 => scalar_unreduced255(), 1 => scalar_for_mul()].boxed()
+}
+
+/// two scalars with a degenerate relation (both zero, one zero, equal, opposite): the places where a
+/// "first non-zero digit" search or a cancellation can fall off the end (added after the seeded change C15b:
+/// unbounded search for the top NAF digit when both scalars are zero)
+fn scalar_pair() -> BoxedStrategy<(B32, B32)> {
+    let z = [0u8; 32];
+    prop_oneof![
+        12 => (scalar_wide(), scalar_wide()),
+        1 => Just((z, z)),
+        1 => scalar_wide().prop_map(move |s| (z, s)),
+        1 => scalar_wide().prop_map(move |s| (s, z)),
+        1 => scalar_for_mul().prop_map(|s| (s, s)),
+        1 => scalar_for_mul().prop_map(|s| (s, Sc::from_bytes_mod_order(&s).neg().to_bytes())),
+    ].boxed()
+}
+
+/// n scalars: independent, or all zero / all equal / a single non-zero one
+fn scalar_vec(n: usize) -> BoxedStrategy<Vec<B32>> {
+    prop_oneof![
+        10 => vec(scalar_for_mul(), n),
+        1 => Just(vec![[0u8; 32]; n]),
+        1 => scalar_for_mul().prop_map(move |s| vec![s; n]),
+        1 => (scalar_for_mul(), 0..n.max(1)).prop_map(move |(s, i)| { let mut v = vec![[0u8; 32]; n]; if n > 0 { v[i] = s; } v }),
+    ].boxed()
+}
+
+/// n points: independent, or all the identity / all equal / P, -P pairs (the sum cancels)
+fn point_vec(n: usize, pts: BoxedStrategy<B32>) -> BoxedStrategy<Vec<B32>> {
+    let id = Aff::IDENTITY.compress();
+    prop_oneof![
+        10 => vec(pts.clone(), n),
+        1 => Just(vec![id; n]),
+        1 => pts.clone().prop_map(move |p| vec![p; n]),
+        1 => pts.prop_map(move |p| {
+            let mut q = p;
+            q[31] ^= 0x80; // -P (for x = 0 this is a non-canonical encoding of the same point: still a valid input)
+            (0..n).map(|i| if i % 2 == 0 { p } else { q }).collect()
+        }),
+    ].boxed()
 }
 
 fn point_any() -> BoxedStrategy<B32> {
@@ -42,7 +82,7 @@ pub fn single_strategy(tables: bool) -> BoxedStrategy<Req> {
         (4, scalar_wide().prop_map(|s| Req::new("sm.mul_base", vec![s.to_vec()])).boxed()),
         (2, (u256_interesting(), point_any()).prop_map(|(b, p)| Req::new("sm.mul_clamped", vec![b.to_vec(), p.to_vec()])).boxed()),
         (2, u256_interesting().prop_map(|b| Req::new("sm.mul_base_clamped", vec![b.to_vec()])).boxed()),
-        (5, (scalar_wide(), point_any(), scalar_wide()).prop_map(|(a, p, b)| Req::new("sm.double_base", vec![a.to_vec(), p.to_vec(), b.to_vec()])).boxed()),
+        (5, (scalar_pair(), point_any()).prop_map(|((a, b), p)| Req::new("sm.double_base", vec![a.to_vec(), p.to_vec(), b.to_vec()])).boxed()),
     ];
     if tables {
         v.push((3, scalar_wide().prop_map(|s| Req::new("sm.const_table", vec![s.to_vec()])).boxed()));
@@ -70,14 +110,14 @@ pub fn msm_strategy(sizes: Vec<usize>, pool_only: bool) -> BoxedStrategy<Req> {
     let p2 = pts.clone();
     let s1 = sizes.clone();
     let msm = (prop::sample::select(sizes), 0u8..5).prop_flat_map(move |(n, kind)| {
-        (Just(kind), vec(scalar_for_mul(), n), vec(p1(), n), none_bitmap(n)).prop_map(|(kind, s, p, none)| msm_req(kind, s, p, if kind == 2 { none } else { vec![] }))
+        (Just(kind), scalar_vec(n), point_vec(n, p1()), none_bitmap(n)).prop_map(|(kind, s, p, none)| msm_req(kind, s, p, if kind == 2 { none } else { vec![] }))
     });
     let pre = (prop::sample::select(s1), 0u8..3, 0usize..4, 0usize..4).prop_flat_map(move |(n, variant, fewer, dyn_n)| {
         // n static points, n - fewer static scalars (fewer static scalars than points is allowed),
         // dyn_n dynamic pairs (scaled up for large n)
         let ns = n.saturating_sub(fewer);
         let nd = if variant == 0 { 0 } else if n > 100 { dyn_n * 40 } else { dyn_n };
-        (Just(variant), vec(p2(), n), vec(scalar_for_mul(), ns), vec(scalar_for_mul(), nd), vec(p2(), nd), none_bitmap(nd))
+        (Just(variant), point_vec(n, p2()), scalar_vec(ns), scalar_vec(nd), point_vec(nd, p2()), none_bitmap(nd))
             .prop_map(|(variant, sp, ss, ds, dp, none)| Req::new("sm.precomp", vec![vec![variant], cat(&sp), cat(&ss), cat(&ds), cat(&dp), if variant >= 2 { none } else { vec![] }]))
     });
     prop_oneof![3 => msm, 1 => pre].boxed()
